@@ -23,7 +23,7 @@ MANIFEST_ENTRY = dict(
 
 def scenarios(ctx: Ctx):
     rng = random.Random(ctx.seed * 15485863 + 15)
-    n = 400 if ctx.quick else 10000
+    n = 300 if ctx.quick else 10000
     topos = rtcheck.topologies(rng, ctx.quick)
     scs = []
     for i in range(n):
@@ -43,6 +43,41 @@ def scenarios(ctx: Ctx):
         clients = [[['submit', 'H%d' % c, 'root'], ['result', 'H%d' % c]] for c in range(nclients)]
         sched = ['random', ctx.seed * 100003 + i] if i % 3 else ['pct', ctx.seed * 100003 + i, rng.choice([2, 3, 5])]
         scs.append({'topo': topo, 'progs': progs, 'clients': clients, 'sched': sched, 'lines': False, 'crash': None, 'probe': False})
+    rng2 = random.Random(ctx.seed * 6700417 + 1515)
+    # read receipts at line level: the idle count is corrected "by tasks sent since the read receipt", which is only right if a
+    # worker's WAITING carries a receipt consistent with what it has consumed.  One or two workers under a server that manages
+    # them directly, small batches, every source line of the worker's two threads a scheduling point, and a scheduler that
+    # puts a thread to sleep for long stretches (preferably the incoming thread, preferably between two lines) - so that the
+    # main thread runs what was just enqueued, goes idle and reports WAITING while the incoming thread is still inside its
+    # SUBMIT / SUBMIT_BATCH handler.  The evidence counts how often that happened (situations_reached.receipt_window_*).
+    m = 110 if ctx.quick else 3000
+    for j in range(m):
+        b = rng2.randint(1, 3)
+        progs = [{'root': [['ret']]},
+                 {'root': [['map', 'm', 'leaf', b], ['await', 'm'], ['ret']], 'leaf': [['ret']]},
+                 {'root': [['submit', 'a', 'leaf'], ['await', 'a'], ['ret']], 'leaf': [['ret']]},
+                 {'root': [['map', 'm', 'mid', 2], ['await', 'm'], ['ret']], 'mid': [['submit', 'x', 'leaf'], ['await', 'x'], ['ret']], 'leaf': [['ret']]},
+                 {'root': [['map', 'm', 'leaf', b], ['await', 'm'], ['submit', 'a', 'leaf'], ['await', 'a'], ['ret']], 'leaf': [['ret']]}][j % 5]
+        sd = ctx.seed * 100003 + n + j
+        sched = [['delay', sd, 0.06, 160, ['recv_incoming']], ['delay', sd, 0.12, 80, ['recv_incoming']], ['pct', sd, 5]][j % 3]
+        scs.append({'topo': ['attached', 1 + (j % 7) % 2], 'progs': progs, 'clients': [[['submit', 'H0', 'root'], ['result', 'H0']]],
+                    'sched': sched, 'lines': True, 'crash': None, 'probe': False, 'family': 'receipt-window'})
+    # a client cancels its compilation around the moment it finishes: the CANCEL may be read before or after the RESULT of the
+    # finished root task that is already on its way.  Either way the worker HAS finished and said so; the count must return
+    # to zero.  (A count left for a task that was dropped unreported is the recorded finding; L1 tells the two apart.)
+    m2 = 80 if ctx.quick else 2000
+    for j in range(m2):
+        progs = [{'root': [['ret']]}, rtcheck.LIB['A'], {'root': [['map', 'm', 'leaf', rng2.randint(1, 4)], ['await', 'm'], ['ret']], 'leaf': [['ret']]},
+                 rtcheck.LIB['B']][j % 4]
+        script = [[['submit', 'H', 'root'], ['when', 'root-result'], ['cancel', 'H']],
+                  [['submit', 'H', 'root'], ['when', 'root-result'], ['cancel', 'H'], ['submit', 'H2', 'root'], ['result', 'H2']],
+                  [['submit', 'H', 'root'], ['status', 'H'], ['cancel', 'H']],
+                  [['submit', 'H', 'root'], ['settle'], ['cancel', 'H']],
+                  [['submit', 'H', 'root'], ['cancel', 'H'], ['submit', 'H2', 'root'], ['result', 'H2']]][j % 5]
+        sd = ctx.seed * 100003 + n + m + j
+        sched = ['race', sd, 'client-cancel', 'root-result'] if j % 3 != 2 else ['random', sd]
+        scs.append({'topo': ['attached', 1 + j % 3], 'progs': progs, 'clients': [script], 'sched': sched, 'lines': j % 4 == 3,
+                    'crash': None, 'probe': False, 'family': 'cancel-crossing'})
     return scs
 
 
